@@ -151,9 +151,14 @@ func loadKnown(path string) ([]KnownFinding, error) {
 // Import copies the obligations that a sibling property's rule set produced (run on the same program) into this report
 // under the given rule id; only the sibling rules accepted by keep are taken. Unmet floors of those rules become undecided.
 func (r *Report) Import(sub *Report, asRule string, keep func(rule string) bool) {
+	r.ImportWhere(sub, asRule, keep, nil)
+}
+
+// ImportWhere is Import restricted to the obligations whose construct keepC accepts (nil = all).
+func (r *Report) ImportWhere(sub *Report, asRule string, keep func(rule string) bool, keepC func(construct string) bool) {
 	known, _ := loadKnown(filepath.Join(r.verifDir, "known_findings.json"))
 	for _, o := range sub.Obls {
-		if !keep(o.Rule) {
+		if !keep(o.Rule) || (keepC != nil && !keepC(o.Construct)) {
 			continue
 		}
 		if o.Verdict == Violated {
@@ -175,7 +180,7 @@ func (r *Report) Import(sub *Report, asRule string, keep func(rule string) bool)
 		r.count[asRule]++
 	}
 	for rule, fl := range sub.floor {
-		if keep(rule) && sub.count[rule] < fl {
+		if keepC == nil && keep(rule) && sub.count[rule] < fl {
 			r.Und(asRule, rule+": non-vacuity", "", fmt.Sprintf("sibling rule %s matched %d constructs, needs at least %d", rule, sub.count[rule], fl))
 		}
 	}
